@@ -1578,3 +1578,60 @@ def conjuncts(text_or_node):
 
     rec(text_or_node)
     return out
+
+
+def enclosing_patterns(root, target):
+    """patterns whose bindings are in force at `target`, outermost first: [(pattern, scrutinee)] for match
+    arms, `if let` (then-branch), `while let`, let-else and plain destructuring lets of enclosing blocks"""
+    found = []
+
+    def rec(n, pats):
+        if found:
+            return
+        if isinstance(n, list):
+            for x in n:
+                rec(x, pats)
+            return
+        if not isinstance(n, dict):
+            return
+        if n is target:
+            found.append(list(pats))
+            return
+        k = n.get("k")
+        if k == "Match":
+            rec(n["e"], pats)
+            for a in n["arms"]:
+                p2 = pats + [(a["pat"], n["e"])]
+                rec(a.get("guard"), p2)
+                rec(a["body"], p2)
+            return
+        if k in ("If", "While"):
+            c = strip(n["cond"])
+            p2 = pats + [(c["pat"], c["e"])] if c.get("k") == "LetCond" else pats
+            rec(n["cond"], pats)
+            rec(n.get("then") or n.get("body"), p2)
+            rec(n.get("else"), pats)
+            return
+        if k == "Block":
+            p2 = list(pats)
+            for s in n.get("stmts", []):
+                rec(s, p2)
+                if found:
+                    return
+                if s.get("k") == "Let" and s.get("init") is not None and s["pat"].get("k") not in ("PIdent", "PType", "PWild"):
+                    p2 = p2 + [(s["pat"], s["init"])]
+            return
+        for v in children(n):
+            rec(v, pats)
+
+    rec(root, [])
+    return found[0] if found else None
+
+
+def struct_pat_bindings(pat):
+    """`T { a, b: c, .. }` -> {'a': 'a', 'b': 'c'}"""
+    out = {}
+    if pat.get("k") == "PStruct":
+        for f in pat.get("fields", []):
+            out[f["name"]] = binding_name(f["pat"])
+    return out
